@@ -1,9 +1,10 @@
 ---------------------------- MODULE Monitor_C18 ----------------------------
 (***************************************************************************)
 (* Verdict and binding for C18 over driver-level traces recorded from the  *)
-(* REAL MySQL adapter (and the real store mappers on top of it) under the  *)
-(* fake database/sql driver: c18_vectors.ndjson, one record per run        *)
-(*   op, level, branch, params, cfg, k, fault, applied, n, nw,             *)
+(* REAL MySQL adapter under the fake database/sql driver, the REAL         *)
+(* PostgreSQL adapter under the fake wire-protocol backend, and the real   *)
+(* store mappers on top of each: c18_vectors.ndjson, one record per run    *)
+(*   dialect, op, level, branch, params, cfg, k, fault, applied, n, nw,    *)
 (*   events = <<[c, e, pos, verb, tbl, q, intx, ok, res]>>,                *)
 (*   returned_err, open_tx_after, inuse_after.                             *)
 (* `bad` = names of property-level monitors that are false on the REAL     *)
@@ -64,12 +65,14 @@ RealNetEffect(a)  == {T \in TxsDurable(a) : /\ ~\E T2 \in TxsDurable(a) : Compen
                                          /\ ~\E T1 \in TxsDurable(a) : Compensates(a, T, T1)}
 RealFullEffect(v, a) == Cardinality(a.dur) = v.nw /\ a.rollbacks = 0 /\ a.failedCommits = 0 /\ a.lost = 0
 
-\* the first transaction-ending event on connection c after index j is a successful ROLLBACK
+\* the first transaction-ending event on connection c after index j is a successful ROLLBACK (or, PostgreSQL, the COMMIT
+\* of an aborted transaction block, which the server answers with ROLLBACK)
 EndsAfter(v, j, c)  == {m \in DOMAIN v.events : m > j /\ v.events[m].c = c /\ v.events[m].e \in {"COMMIT", "ROLLBACK", "LOST", "CLOSE"}
                                                  /\ (v.events[m].e = "ROLLBACK" => v.events[m].ok)}
 RolledBackAfter(v, j) ==
   LET E == EndsAfter(v, j, v.events[j].c) IN
-    E # {} /\ LET m == CHOOSE x \in E : \A y \in E : x <= y IN v.events[m].e = "ROLLBACK"
+    E # {} /\ LET m == CHOOSE x \in E : \A y \in E : x <= y
+              IN v.events[m].e = "ROLLBACK" \/ (v.events[m].e = "COMMIT" /\ v.events[m].res = "rolledback")
 
 Check(v) ==
   LET a == Fold(v.events, 1, A0)
@@ -97,7 +100,7 @@ Proj(evs, i) == IF i > Len(evs) THEN <<>>
                 ELSE <<<<evs[i].e, evs[i].verb, evs[i].tbl, evs[i].ok>>>> \o Proj(evs, i + 1)
 
 Diverge(v) ==
-  LET op == Prog(v.op, v.params)
+  LET op == Prog(v.op, v.params, v.dialect)
       pr == Run(op, v.cfg, v.k, v.fault)
   IN (IF Proj(v.events, 1) # pr.evs THEN {"trace"} ELSE {})
      \cup (IF v.returned_err # pr.opErr THEN {"returned_err"} ELSE {})
